@@ -316,12 +316,15 @@ fn run_case(idx: usize, line: &str, dir: &str, out: &mut Out) {
     let faults = parse_faults(spec.get("faults"));
     let in_thread = spec.get("thread") == "1";
     let detached = spec.get("det") == "1";
+    // window=<k>: right after the k-th pipe(); window=r: at the read of the launch-status channel (after the fork)
+    let window_at_read = spec.get("window") == "r";
     let window: usize = spec.get("window").parse().unwrap_or(0);
     unsafe {
         WINDOW_OUT = None;
         WINDOW_DIR = Some(dir.to_string());
         trace::PIPE_HOOK_AT = window;
-        trace::PIPE_HOOK = if window > 0 { Some(window_hook) } else { None };
+        trace::READ_HOOK_ON = window_at_read;
+        trace::PIPE_HOOK = if window > 0 || window_at_read { Some(window_hook) } else { None };
     }
     let core = move || {
         trace::start(&faults, true);
@@ -391,6 +394,7 @@ fn run_case(idx: usize, line: &str, dir: &str, out: &mut Out) {
     out.line(&format!("ALLOC {} {}", allocs, abytes));
     unsafe {
         trace::PIPE_HOOK_AT = 0;
+        trace::READ_HOOK_ON = false;
         if let Some((parent, other)) = WINDOW_OUT.take() {
             out.line(&format!("WINDOW parent={} other={}", if parent.is_empty() { "-".into() } else { parent.replace(' ', ",") }, if other.is_empty() { "-".into() } else { other.replace(' ', ",") }));
         }
